@@ -74,7 +74,7 @@ func c10Stream(r *fw.Rand, mtu int) (calls []c10Call, expect [][]byte, pairs map
 			default:
 				t := c10SliceTypes[r.Intn(len(c10SliceTypes))]
 				sz := gen.H264Size(r, mtu)
-				if mtu >= 1000 && r.Chance(1, 12) {
+				if (mtu >= 1000 && r.Chance(1, 12)) || (mtu >= 64 && r.Chance(1, 150)) || r.Chance(1, 5000) {
 					// units larger than 64 KiB are ordinary for key frames: 16-bit length arithmetic must not be involved
 					sz = r.Pick(65534, 65535, 65536, 65537, 70000, 131072, 131073)
 				}
